@@ -4,12 +4,62 @@ public API shows.  It makes no judgement (DESIGN 2.4)."""
 import json
 import sys
 
-from prov.model import ProvDocument, ProvException
-from prov.identifier import Namespace, QualifiedName, Identifier
 import prov
+from prov.model import ProvDocument, ProvBundle, ProvException, Literal
+from prov.identifier import Namespace, QualifiedName, Identifier
+from prov import constants as PC
 
-from vocab import uri_text, local_text, uri_segs
-from project import proj_ns, proj_qn, printed_form
+from vocab import uri_text, local_text, uri_segs, Vocab
+from project import proj_ns, proj_qn, printed_form, proj_container
+
+REC_TYPE = {
+    "entity": PC.PROV_ENTITY, "activity": PC.PROV_ACTIVITY, "agent": PC.PROV_AGENT,
+    "generation": PC.PROV_GENERATION, "usage": PC.PROV_USAGE,
+    "communication": PC.PROV_COMMUNICATION, "start": PC.PROV_START, "end": PC.PROV_END,
+    "invalidation": PC.PROV_INVALIDATION, "derivation": PC.PROV_DERIVATION,
+    "attribution": PC.PROV_ATTRIBUTION, "association": PC.PROV_ASSOCIATION,
+    "delegation": PC.PROV_DELEGATION, "influence": PC.PROV_INFLUENCE,
+    "specialization": PC.PROV_SPECIALIZATION, "alternate": PC.PROV_ALTERNATE,
+    "mention": PC.PROV_MENTION, "membership": PC.PROV_MEMBERSHIP,
+}
+FORMALS = {
+    "entity": [], "agent": [], "activity": ["startTime", "endTime"],
+    "generation": ["entity", "activity", "time"], "usage": ["activity", "entity", "time"],
+    "communication": ["informed", "informant"],
+    "start": ["activity", "trigger", "starter", "time"],
+    "end": ["activity", "trigger", "ender", "time"],
+    "invalidation": ["entity", "activity", "time"],
+    "derivation": ["generatedEntity", "usedEntity", "activity", "generation", "usage"],
+    "attribution": ["entity", "agent"], "association": ["activity", "agent", "plan"],
+    "delegation": ["delegate", "responsible", "activity"],
+    "influence": ["influencee", "influencer"],
+    "specialization": ["specificEntity", "generalEntity"],
+    "alternate": ["alternate1", "alternate2"],
+    "mention": ["specificEntity", "generalEntity", "bundle"],
+    "membership": ["collection", "entity"],
+}
+FACTORY = {
+    "entity": "entity", "activity": "activity", "agent": "agent", "generation": "generation",
+    "usage": "usage", "communication": "communication", "start": "start", "end": "end",
+    "invalidation": "invalidation", "derivation": "derivation", "attribution": "attribution",
+    "association": "association", "delegation": "delegation", "influence": "influence",
+    "specialization": "specialization", "alternate": "alternate", "mention": "mention",
+    "membership": "membership",
+}
+ALIAS = {
+    "generation": "wasGeneratedBy", "usage": "used", "communication": "wasInformedBy",
+    "start": "wasStartedBy", "end": "wasEndedBy", "invalidation": "wasInvalidatedBy",
+    "derivation": "wasDerivedFrom", "attribution": "wasAttributedTo",
+    "association": "wasAssociatedWith", "delegation": "actedOnBehalfOf",
+    "influence": "wasInfluencedBy", "specialization": "specializationOf",
+    "alternate": "alternateOf", "mention": "mentionOf", "membership": "hadMember",
+}
+NO_ID_FACTORY = {"specialization", "alternate", "mention", "membership"}
+XSD_T = {"string": PC.XSD_STRING, "double": PC.XSD_DOUBLE, "long": PC.XSD_LONG,
+         "int": PC.XSD_INT, "boolean": PC.XSD_BOOLEAN, "dateTime": PC.XSD_DATETIME,
+         "anyURI": PC.XSD_ANYURI}
+NATIVE_KIND = {"string": "str", "double": "float", "long": "int", "int": "int",
+               "boolean": "bool", "dateTime": "dt", "anyURI": "uri"}
 
 
 def exc_name(e):
@@ -23,15 +73,20 @@ def exc_name(e):
 class World(object):
     """Live objects of one behaviour, addressed by the spec's handle names."""
 
-    def __init__(self, init):
+    def __init__(self, init, seed=0, salt=0):
+        self.voc = Vocab(seed, salt)
+        self.salt = salt
         self.h = {}        # handle -> container
         self.parents = {}  # handle -> parent handle or ""
         self.handed = []   # (scope, printed form, uri segs)
-        if init == "C03":
+        if init == "docbun":
             doc = ProvDocument()
             self.h["doc"] = doc
             self.h["bun"] = doc.bundle("prov:bun")
             self.parents = {"doc": "", "bun": "doc"}
+        elif init == "doc":
+            self.h["doc"] = ProvDocument()
+            self.parents = {"doc": ""}
         else:
             raise ValueError("unknown init %r" % (init,))
 
@@ -46,9 +101,63 @@ class World(object):
             return uri_text(s["u"])
         raise ValueError(s)
 
+    def rec(self, r):
+        return self.h[r["c"]].records[r["i"] - 1]
+
+    def name(self, n):
+        rep = n["rep"]
+        if rep == "qn":
+            return QualifiedName(Namespace(n["p"], uri_text(n["ns"])), local_text(n["l"]))
+        if rep == "pl":
+            return "%s:%s" % (n["p"], local_text(n["l"]))
+        if rep == "bare":
+            return local_text(n["l"])
+        if rep == "uri":
+            return uri_text(n["u"])
+        if rep == "rec":
+            return self.rec(n["r"])
+        raise ValueError(n)
+
+    def lexical(self, T, tok):
+        kind = NATIVE_KIND[T]
+        if kind == "uri":
+            return uri_text(tok)
+        v = self.voc.value(kind, tok)
+        if kind == "bool":
+            forms = (["true", "1", "True", "TRUE"] if v else ["false", "0", "False", "FALSE"])
+            return forms[self.salt % 4]
+        if kind == "dt":
+            return v.isoformat()
+        if kind == "float":
+            return repr(v)
+        return str(v)
+
+    def value(self, iv):
+        t = iv["t"]
+        if t in ("str", "int", "float", "bool", "dt"):
+            return self.voc.value(t, iv["v"])
+        if t == "uri":
+            return Identifier(uri_text(iv["u"]))
+        if t == "name":
+            return self.name(iv["n"])
+        if t == "nlit":
+            return Literal(self.lexical(iv["T"], iv["u"] if iv["T"] == "anyURI" else iv["v"]), XSD_T[iv["T"]])
+        if t == "plit":
+            return Literal(self.voc.value("str", iv["v"]))
+        if t == "iso":
+            return self.voc.value("dt", iv["v"]).isoformat()
+        if t == "lit":
+            d = iv["dt"]
+            return Literal(self.voc.value("str", iv["v"]),
+                           QualifiedName(Namespace(d["p"], uri_text(d["ns"])), local_text(d["l"])))
+        if t == "lang":
+            return Literal(self.voc.value("str", iv["v"]), langtag=iv["lang"])
+        raise ValueError(iv)
+
     # ---- observation ------------------------------------------------
-    def obs_ns(self):
-        return {"ns": {k: proj_ns(c) for k, c in self.h.items()}}
+    def observe(self):
+        return {"ns": {k: proj_ns(c) for k, c in self.h.items()},
+                "con": {k: proj_container(c, self.voc) for k, c in self.h.items()}}
 
     def reres(self):
         out = []
@@ -62,49 +171,116 @@ class World(object):
         return out
 
     # ---- calls -------------------------------------------------------
-    def call(self, a):
+    def new_rec(self, a):
+        c = self.h[a["h"]]
+        k = a["k"]
+        ident = self.name(a["id"][0]) if a["id"] else None
+        formals = [(f[0], self.value(f[1])) for f in a["formals"]]
+        extras = [(self.name(e[0]), self.value(e[1])) for e in a["extras"]]
+        via = a.get("via", "new_record")
+        if via in ("factory", "alias") and (k not in NO_ID_FACTORY or (ident is None and not extras)):
+            fd = dict(formals)
+            args = [fd.get(f) for f in FORMALS[k]]
+            meth = getattr(c, FACTORY[k] if via == "factory" or k not in ALIAS else ALIAS[k])
+            if k in ("entity", "agent"):
+                return lambda: meth(ident, extras or None)
+            if k == "activity":
+                return lambda: meth(ident, args[0], args[1], extras or None)
+            if k in NO_ID_FACTORY:
+                return lambda: meth(*args)
+            return lambda: meth(*args, identifier=ident, other_attributes=extras or None)
+        fattrs = {PC.PROV[f]: v for f, v in formals}
+        if self.salt % 2:
+            fattrs = list(fattrs.items())
+        rt = REC_TYPE[k]
+        return lambda: c.new_record(rt, ident, fattrs, extras or None)
+
+    def prepare(self, a):
+        """Builds the arguments (harness errors surface here) and returns a
+        thunk that performs the library call and projects its result."""
         op = a["op"]
+        none = proj_qn(None)
+
+        def const(f):
+            def run():
+                f()
+                return none
+            return run
+        if op == "NewRec":
+            return const(self.new_rec(a))
+        if op == "AddAttrs":
+            pairs = [(self.name(p[0]), self.value(p[1])) for p in a["pairs"]]
+            if a.get("form") == "dict":
+                pairs = dict(pairs)
+            r = self.rec(a["r"])
+            return const(lambda: r.add_attributes(pairs))
+        if op == "SetTime":
+            r = self.rec(a["r"])
+            st = self.value(a["start"][0]) if a["start"] else None
+            en = self.value(a["end"][0]) if a["end"] else None
+            return const(lambda: r.set_time(st, en))
+        if op == "AddType":
+            r = self.rec(a["r"])
+            v = self.value(a["v"])
+            return const(lambda: r.add_asserted_type(v))
+        if op == "AddRecord":
+            c = self.h[a["h"]]
+            r = self.rec(a["r"])
+            return const(lambda: c.add_record(r))
         c = self.h[a["h"]]
         if op == "AddNs":
-            ns = c.add_namespace(a["p"], uri_text(a["u"]))
-            return {"ok": True, "p": ns.prefix, "ns": uri_segs(ns.uri), "l": []}
+            p, u = a["p"], uri_text(a["u"])
+
+            def run():
+                ns = c.add_namespace(p, u)
+                return {"ok": True, "p": ns.prefix, "ns": uri_segs(ns.uri), "l": []}
+            return run
         if op == "SetDefault":
-            c.set_default_namespace(uri_text(a["u"]))
-            return proj_qn(None)
+            u = uri_text(a["u"])
+            return const(lambda: c.set_default_namespace(u))
         if op == "ResQN":
-            q = QualifiedName(Namespace(a["p"], uri_text(a["ns"])), local_text(a["l"]))
-            r = c.valid_qualified_name(q)
+            arg = QualifiedName(Namespace(a["p"], uri_text(a["ns"])), local_text(a["l"]))
         elif op == "ResStr":
-            r = c.valid_qualified_name(self.str_form(a["str"]))
+            arg = self.str_form(a["str"])
         else:
             raise ValueError("unknown op %r" % (op,))
-        if r is not None:
-            self.handed.append((a["h"], printed_form(r), uri_segs(r.uri)))
-        return proj_qn(r)
+        h = a["h"]
+
+        def run():
+            r = c.valid_qualified_name(arg)
+            if r is not None:
+                self.handed.append((h, printed_form(r), uri_segs(r.uri)))
+            return proj_qn(r)
+        return run
+
+    def call(self, a):
+        return self.prepare(a)()
 
     def step(self, a, want_pre):
-        pre = self.obs_ns() if want_pre else None
+        pre = self.observe() if want_pre else None
         exc = "none"
+        thunk = self.prepare(a)
         try:
-            res = self.call(a)
+            res = thunk()
         except Exception as e:  # recorded, judged by the clauses
             exc = exc_name(e)
             res = proj_qn(None)
-        st = {"op": a, "exc": exc, "res": res, "post": self.obs_ns(),
+        st = {"op": a, "exc": exc, "res": res, "post": self.observe(),
               "parents": self.parents, "reres": self.reres()}
         if pre is not None:
             st["pre"] = pre
         return st
 
 
-def run_behaviour(tid, init, hist, frm):
+def run_behaviour(tid, init, hist, frm, seed=0):
     """Replay `hist`; record observed steps for calls frm..len(hist)."""
-    w = World(init)
+    w = World(init, seed, tid)
     steps = []
     for i, a in enumerate(hist, start=1):
         if i < frm:
+            thunk = w.prepare(a)
             try:
-                w.call(a)
+                thunk()
             except Exception:
                 pass
         else:
